@@ -281,6 +281,9 @@ class Gen:
         nout = o.get("nout", 1)
         if nout > 1:
             cands = [l for l in self.layers if l.num_output_units == K and l is not root]
+            if o.get("regular"):
+                c0 = Circuit(self.layers, self.in_layers, [root])
+                cands = [l for l in cands if isinstance(l, L.SumLayer) and c0.layer_scope(l) == c0.layer_scope(root)]
             rng.shuffle(cands)
             for l in cands[: nout - 1]:
                 outs.append(l)
@@ -311,7 +314,7 @@ def gen_circuit(rng, **opts):
     return c, g
 
 
-def sample_inputs(rng, doms, scope, n, exhaustive_limit=16):
+def sample_inputs(rng, doms, scope, n, exhaustive_limit=16, nonneg=False):
     """assignments (dict var->value) for the variables in scope"""
     vs = sorted(scope)
     disc = all(doms[v][0] == "disc" for v in vs)
@@ -327,6 +330,6 @@ def sample_inputs(rng, doms, scope, n, exhaustive_limit=16):
             if doms[v][0] == "disc":
                 y[v] = rng.randrange(doms[v][1])
             else:
-                y[v] = dy(rng, -6, 6, 4)
+                y[v] = dy(rng, 0 if nonneg else -6, 6, 4)
         ys.append(y)
     return ys
